@@ -6,6 +6,8 @@ import (
 	"crypto/sha512"
 	"errors"
 	"fmt"
+	"github.com/google/go-configfs-tsm/configfs/configfsi"
+	"io"
 	"io/fs"
 	"math"
 	"os"
@@ -13,6 +15,7 @@ import (
 	"sort"
 	"strconv"
 	"strings"
+	"syscall"
 	"testing"
 	"time"
 
@@ -43,19 +46,45 @@ type modelTSM struct {
 	counter int
 	// failOnce makes the next operation of that kind ("mkdirtemp", "readdir", "readfile:index", "writefile:index",
 	// "writefile:digest") fail with a transient I/O error without doing anything; it is cleared when it has struck
-	failOnce string
+	failOnce  string
+	failLeft  int   // how many operations of that kind fail in a row (0 = one)
+	failErr   error // the error they fail with (nil = errTransient)
+	struck    int
+	strikeErr error // the error the operation that has just struck returns
 }
 
 var errTransient = errors.New("modelTSM: EIO (transient)")
 
 func (m *modelTSM) strikes(kind string) bool {
 	if m.failOnce == kind {
-		m.failOnce = ""
+		m.struck++
+		if m.failLeft > 1 {
+			m.failLeft--
+		} else {
+			m.failOnce = ""
+		}
 		m.rec("failed:"+kind, "", nil)
+		m.strikeErr = errTransient
+		if m.failErr != nil {
+			m.strikeErr = m.failErr
+		}
 		return true
 	}
 	return false
 }
+
+// tsmHandle is a client value of its own in front of a shared model TSM (two handles = two users of one TSM).
+type tsmHandle struct{ m *modelTSM }
+
+func (h *tsmHandle) MkdirTemp(dir, pattern string) (string, error) {
+	return h.m.MkdirTemp(dir, pattern)
+}
+func (h *tsmHandle) ReadFile(name string) ([]byte, error)          { return h.m.ReadFile(name) }
+func (h *tsmHandle) ReadDir(dirname string) ([]os.DirEntry, error) { return h.m.ReadDir(dirname) }
+func (h *tsmHandle) WriteFile(name string, contents []byte) error {
+	return h.m.WriteFile(name, contents)
+}
+func (h *tsmHandle) RemoveAll(p string) error { return h.m.RemoveAll(p) }
 
 var tcgMaps = map[int]string{0: "1,7\n", 1: "2-6\n", 2: "8-15\n", 3: "\n"}
 
@@ -96,7 +125,7 @@ func (m *modelTSM) split(p string) (entry, attr string, ok bool) {
 
 func (m *modelTSM) MkdirTemp(dir, pattern string) (string, error) {
 	if m.strikes("mkdirtemp") {
-		return "", errTransient
+		return "", m.strikeErr
 	}
 	m.rec("mkdirtemp", dir+"|"+pattern, nil)
 	if path.Clean(dir) != tsmRoot {
@@ -116,7 +145,7 @@ func (m *modelTSM) ReadFile(name string) ([]byte, error) {
 		return nil, os.ErrNotExist
 	}
 	if attr == "index" && m.strikes("readfile:index") {
-		return nil, errTransient
+		return nil, m.strikeErr
 	}
 	switch attr {
 	case "index":
@@ -143,7 +172,7 @@ func (m *modelTSM) ReadFile(name string) ([]byte, error) {
 
 func (m *modelTSM) ReadDir(dirname string) ([]os.DirEntry, error) {
 	if m.strikes("readdir") {
-		return nil, errTransient
+		return nil, m.strikeErr
 	}
 	m.rec("readdir", dirname, nil)
 	if path.Clean(dirname) != tsmRoot {
@@ -163,7 +192,7 @@ func (m *modelTSM) ReadDir(dirname string) ([]os.DirEntry, error) {
 
 func (m *modelTSM) WriteFile(name string, contents []byte) error {
 	if _, attr, _ := m.split(name); (attr == "index" || attr == "digest") && m.strikes("writefile:"+attr) {
-		return errTransient
+		return m.strikeErr
 	}
 	m.rec("writefile", name, contents)
 	e, attr, ok := m.split(name)
@@ -245,6 +274,35 @@ func TestC17(t *testing.T) {
 	idxGen := rapid.OneOf(rapid.IntRange(0, 3), rapid.IntRange(0, 3), rapid.IntRange(0, 1), rapid.IntRange(-1, 5), rapid.SampledFrom([]int{math.MinInt, -1, 4, 5, math.MaxInt32, math.MaxInt}))
 	lenGen := rapid.OneOf(rapid.Just(48), rapid.Just(48), rapid.Just(48), rapid.Just(48), rapid.IntRange(0, 64), rapid.SampledFrom([]int{0, 32, 47, 49, 64, 96}))
 	hashGen := rapid.SampledFrom([]crypto.Hash{crypto.SHA384, crypto.SHA384, crypto.SHA384, crypto.SHA384, crypto.SHA384, crypto.SHA384, crypto.SHA384, crypto.SHA384, crypto.SHA256, crypto.SHA512, crypto.SHA1, crypto.Hash(0), crypto.SHA3_384})
+	// event logs of 16 MiB and a little more: the digest extended is that of the WHOLE log (two logs that agree on their
+	// first 16 MiB are different logs)
+	gen.Direct(t, "large-event-logs", func(t *testing.T) {
+		for i, n := range []int{16<<20 - 1, 16 << 20, 16<<20 + 1, 16<<20 + 4096, 33 << 20} {
+			if !gen.ShardOwns(i) {
+				continue
+			}
+			s := gen.NewStream(gen.Seed()+uint64(i), "c17big")
+			log := bytes.Repeat(s.Bytes(64), n/64+1)[:n]
+			copy(log[n-8:], s.Bytes(8))
+			m := &modelTSM{entries: map[string]*tsmEntry{}}
+			idx := i % 4
+			gen.Eval()
+			v := gen.Call(func() error { return rtmr.ExtendEventLogClient(m, idx, crypto.SHA384, log) })
+			sum := sha512.Sum384(log)
+			var dw []tsmOp
+			for _, o := range m.mutations(0) {
+				if o.op == "writefile" && strings.HasSuffix(o.path, "/digest") {
+					dw = append(dw, o)
+				}
+			}
+			gen.NonTrivial("biglog", n)
+			gen.Class("large-event-log")
+			if !v.Accepted() || len(dw) != 1 || !bytes.Equal(dw[0].data, sum[:]) {
+				gen.Fail(t, gen.Violation{Key: "wrong-digest-written:large-log", Oracle: "exactly the given digest (or SHA-384 of the log) is extended", Detail: fmt.Sprintf("event log of %d bytes: %s, %d digest writes, digest of the whole log written=%v", n, v, len(dw), len(dw) == 1 && bytes.Equal(dw[0].data, sum[:])), Replay: map[string]any{"kind": "tsm-large-log", "bytes": n}})
+				return
+			}
+		}
+	})
 	gen.Prop(t, "histories", gen.N(2500, 250000), func(t *rapid.T) {
 		s := gen.NewStream(rapid.Uint64().Draw(t, "content"), "c17")
 		m := &modelTSM{entries: map[string]*tsmEntry{}}
@@ -263,6 +321,12 @@ func TestC17(t *testing.T) {
 		}
 		if rapid.Bool().Draw(t, "plainfile") {
 			m.entries["README"] = &tsmEntry{isFile: true}
+		}
+		// requests arrive through one of three client values in front of the same TSM: the model itself and two handles
+		// (two users of one machine's TSM): what one of them created, the others must find
+		handles := []configfsi.Client{m, &tsmHandle{m}, &tsmHandle{m}}
+		pickClient := func(t *rapid.T) configfsi.Client {
+			return handles[rapid.SampledFrom([]int{0, 0, 1, 2}).Draw(t, "client")]
 		}
 		accepted, rejected, hiccups := map[int]int{}, 0, 0
 		var hist []string
@@ -347,7 +411,8 @@ func TestC17(t *testing.T) {
 				idx := idxGen.Draw(t, "idx")
 				d := s.Bytes(lenGen.Draw(t, "len"))
 				valid := idx >= 0 && idx <= 3 && len(d) == 48
-				step(fmt.Sprintf("ExtendDigestClient(%d, %d bytes)", idx, len(d)), idx, d, valid, func() error { return rtmr.ExtendDigestClient(m, idx, d) })
+				cl := pickClient(t)
+				step(fmt.Sprintf("ExtendDigestClient(%d, %d bytes)", idx, len(d)), idx, d, valid, func() error { return rtmr.ExtendDigestClient(cl, idx, d) })
 			},
 			"eventlog": func(t *rapid.T) {
 				idx := idxGen.Draw(t, "idx")
@@ -361,7 +426,8 @@ func TestC17(t *testing.T) {
 				}
 				valid := idx >= 0 && idx <= 3 && h == crypto.SHA384 && len(log) > 0
 				sum := sha512.Sum384(log)
-				step(fmt.Sprintf("ExtendEventLogClient(%d, hash=%d, %d bytes)", idx, h, len(log)), idx, sum[:], valid, func() error { return rtmr.ExtendEventLogClient(m, idx, h, log) })
+				cl := pickClient(t)
+				step(fmt.Sprintf("ExtendEventLogClient(%d, hash=%d, %d bytes)", idx, h, len(log)), idx, sum[:], valid, func() error { return rtmr.ExtendEventLogClient(cl, idx, h, log) })
 			},
 			// a valid request during which one TSM operation fails transiently: it either fails without having extended
 			// anything or succeeds with exactly one extend, and it leaves nothing behind that makes later requests fail
@@ -369,13 +435,16 @@ func TestC17(t *testing.T) {
 				idx := rapid.IntRange(0, 3).Draw(t, "idx")
 				d := s.Bytes(48)
 				kind := rapid.SampledFrom([]string{"mkdirtemp", "readdir", "readfile:index", "writefile:index", "writefile:digest"}).Draw(t, "failing")
-				m.failOnce = kind
+				times := rapid.SampledFrom([]int{1, 1, 1, 2, 3, 4, 5, 8, 100}).Draw(t, "timesInARow")
+				ferr := rapid.SampledFrom([]error{nil, syscall.EBUSY, syscall.EINTR, syscall.EAGAIN, syscall.EIO, &fs.PathError{Op: "write", Path: "digest", Err: syscall.EBUSY}, os.ErrPermission, io.EOF}).Draw(t, "failsWith")
+				m.failOnce, m.failLeft, m.failErr, m.struck = kind, times, ferr, 0
 				from := len(m.ops)
+				cl := pickClient(t)
 				gen.Eval()
-				v := gen.Call(func() error { return rtmr.ExtendDigestClient(m, idx, d) })
-				struck := m.failOnce == ""
-				m.failOnce = ""
-				desc := fmt.Sprintf("ExtendDigestClient(%d, 48 bytes) while the next %s fails transiently (struck=%v)", idx, kind, struck)
+				v := gen.Call(func() error { return rtmr.ExtendDigestClient(cl, idx, d) })
+				struck := m.struck > 0
+				m.failOnce, m.failLeft, m.failErr = "", 0, nil
+				desc := fmt.Sprintf("ExtendDigestClient(%d, 48 bytes) while the next %d %s operations fail with %v (struck %d times)", idx, times, kind, ferr, m.struck)
 				hist = append(hist, fmt.Sprintf("%s -> %s", desc, v.Short()))
 				rp := map[string]any{"kind": "tsm-history", "history": hist}
 				if v.Panicked() {
@@ -401,6 +470,21 @@ func TestC17(t *testing.T) {
 				default:
 					hiccups++
 				}
+			},
+			// somebody else (another process) binds an entry for an index that has none yet, under a name of its own
+			"bound-by-someone-else": func(t *rapid.T) {
+				idx := rapid.IntRange(0, 3).Draw(t, "idx")
+				if _, e := m.boundEntry(idx); e != nil {
+					t.Skip("index already has an entry")
+				}
+				e := &tsmEntry{bound: true, index: idx}
+				if reg, ok := model[idx]; ok {
+					e.register = reg
+				}
+				m.counter++
+				m.entries[fmt.Sprintf("%s%d-%d", rapid.SampledFrom([]string{"rtmr", "other-", "x"}).Draw(t, "name"), idx, m.counter)] = e
+				model[idx] = e.register
+				hist = append(hist, fmt.Sprintf("another process binds an entry to index %d", idx))
 			},
 			"": func(t *rapid.T) {
 				seen := map[int]string{}
